@@ -137,7 +137,13 @@ var stRe = regexp.MustCompile(`(?m)^goroutine (\d+) \[([^\],]+)`)
 var stackBuf = make([]byte, 1<<20)
 
 func statuses() map[int]string {
+	// the dump must never be truncated: goroutines missing from it would look "gone" and the
+	// scheduler would take its next decision while they are still running
 	n := runtime.Stack(stackBuf, true)
+	for n >= len(stackBuf) {
+		stackBuf = make([]byte, 2*len(stackBuf))
+		n = runtime.Stack(stackBuf, true)
+	}
 	m := map[int]string{}
 	for _, x := range stRe.FindAllSubmatch(stackBuf[:n], -1) {
 		id, _ := strconv.Atoi(string(x[1]))
